@@ -118,6 +118,8 @@ def literal_cases(ctx):
 
 def run(ctx):
     ctx.proof_gate()
+    from props.c02 import refresh_c_kernel
+    refresh_c_kernel()
     ctx.build_harness()
     r = ctx.rng
     # ---------------------------------------------------------------- 1. every (sign, coefficient, exponent) class through from_string
